@@ -293,13 +293,20 @@ func findReference(msaIn io.Reader, referenceID string) (fastaio.EncodedFastaRec
 	for s.Scan() {
 		line = s.Bytes()
 
+		if len(line) == 0 && !first {
+			continue
+		}
+
 		if first {
 
-			if line[0] != '>' {
+			if len(line) == 0 || line[0] != '>' {
 				return fastaio.EncodedFastaRecord{}, errors.New("badly formatted fasta file")
 			}
 
 			description = string(line[1:])
+			if len(strings.Fields(description)) == 0 {
+				return fastaio.EncodedFastaRecord{}, errors.New("fasta header with no sequence ID")
+			}
 			id = strings.Fields(description)[0]
 
 			if id == referenceID {
@@ -323,6 +330,9 @@ func findReference(msaIn io.Reader, referenceID string) (fastaio.EncodedFastaRec
 
 			counter++
 			description = string(line[1:])
+			if len(strings.Fields(description)) == 0 {
+				return fastaio.EncodedFastaRecord{}, errors.New("fasta header with no sequence ID")
+			}
 			id = strings.Fields(description)[0]
 			seqBuffer = make([]byte, 0)
 
